@@ -17,6 +17,8 @@ pub const SITE_KW_BEGIN: u32 = 4;
 pub const SITE_KW_END: u32 = 5;
 pub const SITE_KW_CLEAR: u32 = 6;
 pub const SITE_INIT: u32 = 7;
+/// the balanced push around macro-name lexing, as opposed to a `begin_keywords region
+pub const SITE_KW_BEGIN_DIRECTIVE: u32 = 8;
 
 pub const SCOPE_FILE: u8 = 0;
 pub const SCOPE_MACRO: u8 = 1;
@@ -26,6 +28,10 @@ pub trait Sim: Send + Sync {
     /// Called at every terminal of the grammar and at every mutation of the
     /// thread-local parser state.
     fn step(&self, site: u32);
+    /// A grammar terminal about to be tried at byte `offset` of the text being parsed.
+    fn step_at(&self, site: u32, _offset: usize) {
+        self.step(site)
+    }
     fn fs_open(&self, path: &Path) -> io::Result<Box<dyn io::Read>>;
     fn fs_exists(&self, path: &Path) -> bool;
     /// Nesting of file inclusion (kind 0) and macro expansion (kind 1).
@@ -56,6 +62,16 @@ pub fn step(site: u32) {
         let s = SIM.with(|x| x.borrow().clone());
         if let Some(s) = s {
             s.step(site)
+        }
+    }
+}
+
+#[inline]
+pub fn step_at(site: u32, offset: usize) {
+    if SIM_ON.with(|x| x.get()) {
+        let s = SIM.with(|x| x.borrow().clone());
+        if let Some(s) = s {
+            s.step_at(site, offset)
         }
     }
 }
